@@ -82,6 +82,31 @@ def guard_of(an, key, ins, lhs_locals):
         if c.callee == PUSH and c.args and c.args[0].place is not None:
             if fd.bases(c.args[0].place.local) & lhs_sl["locals"]:
                 return "push onto the same vector at %s proves it non-empty" % c.line()
+    # (e) the instruction sits in a closure: every call of the closure in its parent is preceded by an unconditional
+    #     index into the same collection (directly, or inside a sibling closure called before)
+    if fd.body.is_closure and fd.body.parent:
+        pfd = an.fd(fd.body.parent)
+        if pfd is not None:
+            calls = [c for c in pfd.body.calls() if c.callee == key]
+            src = lhs_atoms & SOURCES
+
+            def proves(c0):
+                for c in pfd.body.calls():
+                    if c is c0 or not pfd.cfg.instr_dominates(c, c0):
+                        continue
+                    if c.callee == INDEX and data_atoms(an, pfd.body.key, pfd.operand_uses(c.args[0])) & src:
+                        return True
+                    sk = c.callee or ""
+                    if sk != key and sk in an.prog.bodies and an.prog.bodies[sk].is_closure and an.prog.bodies[sk].parent == fd.body.parent:
+                        sfd = an.fd(sk)
+                        rets = [i for i in sfd.body.instrs() if i.kind == "return"]
+                        for ic in sfd.body.calls():
+                            if ic.callee == INDEX and data_atoms(an, sk, sfd.operand_uses(ic.args[0])) & src \
+                                    and all(sfd.cfg.instr_dominates(ic, r) for r in rets):
+                                return True
+                return False
+            if calls and src and all(proves(c0) for c0 in calls):
+                return "every call of this closure is preceded by an index into the same collection (which proves it non-empty)"
     return None
 
 
